@@ -255,9 +255,16 @@ def run(ctx):
             dt = [x for x in dets if x.idx in drop_only]
             ok = len(rm) == 1 and len(dt) == 1 and 'VecDeque' in ''.join(rm[0].term.callee_names()) and \
                 [m for x, m in qc if x.idx == rm[0].idx][0] == 'remove'
-            ctx.ob('R09.1', 'predicate false: element removed (order preserving) and detached once', ok, ctx.where(b, sw.term.line),
-                   'false branch: removes=%s detaches=%d' % ([m for x, m in qc if x in rm], len(dt)), construct='retain:false-branch',
-                   sites=[ctx.where(b, x.term.line) for x in rm + dt])
+            later_dets = [x for x in dets if x.idx not in drop_only and x.idx not in keep_only and in_cycle(an, x.idx) and not an.dominates(x.idx, sw.idx)]
+            if not ok and len(rm) == 1 and not dt and later_dets:
+                # collect first, detach afterwards (`for obj in &mut rejected { detach(obj) }`): that every collected object reaches
+                # the second loop is an argument about the contents of a vector - not attempted, no alarm
+                ctx.undecide('R09.1', 'retain collects the rejected objects and detaches them in a second loop (line %s): not followed' % later_dets[0].term.line)
+                ok = None
+            if ok is not None:
+                ctx.ob('R09.1', 'predicate false: element removed (order preserving) and detached once', ok, ctx.where(b, sw.term.line),
+                       'false branch: removes=%s detaches=%d' % ([m for x, m in qc if x in rm], len(dt)), construct='retain:false-branch',
+                       sites=[ctx.where(b, x.term.line) for x in rm + dt])
             if ok:
                 # the removed element (same index as the one tested) goes to detach and then to the caller's vector
                 idx_t = an.resolve_operand(rm[0].term.args[1])
@@ -291,10 +298,27 @@ def run(ctx):
                 ret_src = an.resolve_operand(f['retained'])
                 # `retained` must be the final loop index (number of kept elements) and `removed` the vector pushed to
                 loop_idx = an.resolve_operand(tested[0].term.args[1]) if ok and tested else None
-                ctx.ob('R09.1', 'retained count is the number of kept elements', ret_src == loop_idx, ctx.where(b, aggs[0].line),
+                okret = ret_src == loop_idx
+                if not okret:
+                    # .. or the length of the idle queue read after the walk (what is left in it is what was kept)
+                    lens = [x for x in b.blocks if x.term.kind == 'call' and not x.cleanup and any(n_.endswith('VecDeque::len') or n_.endswith('VecDeque::<T, A>::len') for n_ in x.term.callee_names())
+                            and x.term.args and receiver_is_field(an, x.term.args[0], r.SLOTS, r.QUEUE) and not in_cycle(an, x.idx)
+                            and any(s_[0] == 'call' and s_[2] == x.idx for s_ in sources(an, f['retained']))]
+                    okret = len(lens) == 1 and all(lens[0].idx in an.reach_after(x.idx, ('normal',)) for x in removes) and \
+                        not any(x.idx in an.reach_after(lens[0].idx, ('normal',)) for x in removes)
+                ctx.ob('R09.1', 'retained count is the number of kept elements', okret, ctx.where(b, aggs[0].line),
                        'retained: %s' % ret_src, construct='retain:retained')
             sem = [x for x in b.blocks if r.is_sem_call(b, x.term)]
             ctx.ob('R09.1', 'retain does not touch the semaphore (capacity unchanged)', not sem, ctx.where(b), '', construct='retain:semaphore')
+
+    # whatever the walk looks like: `retained` counts idle objects that were kept - the `size` counter also counts the objects
+    # that are checked out or being recycled, so a count read from it is wrong as soon as one object is in use
+    for s_ in [s for blk in b.blocks for s in blk.stmts if s.kind == 'assign' and s.rv.kind == 'agg' and s.rv.j.get('adt') == 'deadpool::managed::RetainResult']:
+        f_ = dict(zip(s_.rv.j['fields'], s_.rv.ops))
+        if 'retained' in f_:
+            from_size = ('field', '%s.%s' % (r.SLOTS, r.SIZE)) in sources(an, f_['retained'], deep=True)
+            ctx.ob('R09.1', 'retained count is not read from the size counter', not from_size, ctx.where(b, s_.line),
+                   'RetainResult.retained derives from slots.size, which includes the objects that are checked out' if from_size else '', construct='retain:retained-from-size')
 
     # ---- R09.2 Object::take -------------------------------------------------------
     tk = r.OBJ_TAKE
